@@ -119,8 +119,9 @@ def get_facts(config='default'):
             _run_driver(REPO, ['x86_64'], feats, rf, path)
             sys.stderr.write('[facts] extracted %s in %.1fs\n' % (config, time.time() - t0))
             _prune(config, path)
-    with open(path) as fh:
-        d = json.load(fh)['x86_64']
+        # read while holding the lock: a concurrent run's pruning must not remove the file in between
+        with open(path) as fh:
+            d = json.load(fh)['x86_64']
     _mem[key] = d
     return d
 
@@ -156,8 +157,8 @@ def get_witness_facts():
                 shutil.rmtree(tmp, ignore_errors=True)
             sys.stderr.write('[facts] extracted witness in %.1fs\n' % (time.time() - t0))
             _prune('witness', path)
-    with open(path) as fh:
-        raw = fh.read()
+        with open(path) as fh:
+            raw = fh.read()
     w = json.loads(raw.replace('x86_64::', ''))['witness']
     base = get_facts('default')
     d = {'fns': w['fns'] + base['fns'], 'consts': w['consts'] + base['consts'],
@@ -180,7 +181,10 @@ def _prune(config, keep):
             except OSError:
                 pass
     old.sort(reverse=True)
-    for _, p in old[24:]:
+    now = time.time()
+    for mt, p in old[24:]:
+        if now - mt < 1800:
+            continue    # possibly in use by a concurrent run (self-test / seeded runs share the scratch cache)
         try:
             os.remove(p)
         except OSError:
